@@ -15,7 +15,7 @@ import (
 func init() {
 	register(&Property{
 		ID: "C19",
-		Rule: "one negotiation per fresh client against a reactive server; exhaustively: wanted lists over {a,b,c,sasl} (all 16 subsets as configured lists plus lists with duplicates) x SASL {none, PLAIN, EXTERNAL(\"\"), EXTERNAL(id)} x " +
+		Rule: "one negotiation per fresh client against a reactive server; exhaustively: wanted lists over {a,b,c,sasl} (all 16 subsets as configured lists plus lists with duplicates) x SASL {none, PLAIN, EXTERNAL(\"\"), EXTERNAL(id), PLAIN and EXTERNAL with credentials whose base64 contains '+' and '/'} x " +
 			"advertised subsets of {a,b,c,sasl,x} (32) x reply {ACK, NAK, ACK then later ACK of '-cap'} x SASL outcome {903, 904, 908}; plus PRNG sets of 50..300 capabilities that force the request to be split over several lines. " +
 			"A trace automaton over the wire transcript and SupportsCapability/HasCapability at sync markers checks: the union of CAP REQ arguments equals wanted-and-advertised with no capability twice and no REQ when it is empty, " +
 			"HasCapability equals 'latest ACK enabled it', a CAP END exists at quiescence after NAK / ACK not starting SASL / empty intersection / 903 / 904 / 908, no AUTHENTICATE before the server ACKed sasl, credentials only after the server's " +
@@ -84,7 +84,7 @@ func runC19(c *Ctx) {
 		adv := []string{"a", "b", "c", "sasl", "x"}
 		idx := 0
 		for _, w := range wantedLists {
-			for _, sk := range []string{"none", "plain", "ext-empty", "ext-id"} {
+			for _, sk := range []string{"none", "plain", "ext-empty", "ext-id", "plain-special", "ext-special"} {
 				for am := 0; am < 32; am++ {
 					var al []string
 					for i, u := range adv {
@@ -109,7 +109,7 @@ func runC19(c *Ctx) {
 				}
 			}
 		}
-		c.R.Exhaustive["19 wanted lists x 4 SASL configurations x 32 advertised sets x 3 replies x SASL outcomes"] = c.Only == ""
+		c.R.Exhaustive["19 wanted lists x 6 SASL configurations x 32 advertised sets x 3 replies x SASL outcomes"] = c.Only == ""
 	case "big":
 		total := c.Pick(200, 8000)
 		per := total / parts
@@ -158,6 +158,15 @@ func c19Run(c *Ctx, gen string, idx int, k c19Case) bool {
 	case "ext-id":
 		sc = sasl.NewExternalClient("ident1")
 		wantPayload = base64.StdEncoding.EncodeToString([]byte("ident1"))
+		mech = "EXTERNAL"
+	case "plain-special":
+		// credentials whose standard base64 form contains '+' and '/'
+		sc = sasl.NewPlainClient("", "u~?>", "\xff\xfe>?~")
+		wantPayload = base64.StdEncoding.EncodeToString([]byte("\x00u~?>\x00\xff\xfe>?~"))
+		mech = "PLAIN"
+	case "ext-special":
+		sc = sasl.NewExternalClient("~?>\xfb\xff")
+		wantPayload = base64.StdEncoding.EncodeToString([]byte("~?>\xfb\xff"))
 		mech = "EXTERNAL"
 	}
 	s := NewSession(SessionOpts{Flood: true, Mutate: func(cfg *client.Config) {
@@ -355,6 +364,25 @@ func c19Run(c *Ctx, gen string, idx int, k c19Case) bool {
 			off := names[0]
 			mc.SendLine(":srv CAP * ACK :-" + off)
 			has[off] = false
+			if !quiesce() {
+				return false
+			}
+		}
+	}
+	// a later request naming a held capability together with one the server refuses is NAKed as a whole:
+	// a NAK acknowledges nothing, what is held stays held
+	if idx%2 == 0 {
+		var held []string
+		for x, on := range has {
+			if on {
+				held = append(held, x)
+			}
+		}
+		sort.Strings(held)
+		if len(held) > 0 {
+			conn.Cap("REQ", held[0], "never-supported")
+			mc.WaitLineFrom(WaitLong, 0, func(l string) bool { return strings.HasPrefix(l, "CAP REQ") && strings.Contains(l, "never-supported") })
+			mc.SendLine(":srv CAP * NAK :" + held[0] + " never-supported")
 			if !quiesce() {
 				return false
 			}
